@@ -4,6 +4,7 @@ import (
 	"go/ast"
 	"go/token"
 	"go/types"
+	"strings"
 
 	"verif/checker/internal/tmpl"
 )
@@ -163,4 +164,48 @@ func isRWMutex(t types.Type) bool {
 		return false
 	}
 	return n.Obj().Pkg().Path() == "sync" && (n.Obj().Name() == "RWMutex" || n.Obj().Name() == "Mutex")
+}
+
+// FreeNames lists the fixed identifiers (no token inside) a generated method
+// must still resolve from inside its parameters' scope: universe objects it
+// uses and names it declares itself next to the parameters (K-FREE).
+func (u *Unit) FreeNames() map[string]string {
+	out := map[string]string{}
+	if u.Info == nil || u.File == nil {
+		return out
+	}
+	for _, mk := range u.Mocks() {
+		for _, f := range mk.Funcs {
+			if f.Role != RoleMethod || f.Decl.Body == nil {
+				continue
+			}
+			params := map[types.Object]bool{}
+			if f.Decl.Type.Params != nil {
+				for _, fl := range f.Decl.Type.Params.List {
+					for _, n := range fl.Names {
+						params[u.Info.Defs[n]] = true
+					}
+				}
+			}
+			ast.Inspect(f.Decl, func(n ast.Node) bool {
+				id, ok := n.(*ast.Ident)
+				if !ok || strings.ContainsAny(id.Name, tmpl.TokEnd) {
+					return true
+				}
+				if o := u.Info.Uses[id]; o != nil && o.Parent() == types.Universe {
+					// only uses inside the body or the signature's types count
+					if _, isType := o.(*types.TypeName); !isType {
+						out[id.Name] = "predeclared " + id.Name + " used by the generated body"
+					}
+				}
+				if o := u.Info.Defs[id]; o != nil && !params[o] {
+					if v, ok := o.(*types.Var); ok && !v.IsField() && id.Name != "_" {
+						out[id.Name] = "declared by the generated method itself (" + id.Name + ")"
+					}
+				}
+				return true
+			})
+		}
+	}
+	return out
 }
